@@ -29,6 +29,17 @@ E. generated Core / ORM statements and legacy Query objects through
    unqualified table of the same name): SELECTs, joins, subqueries and INSERT / UPDATE /
    DELETE / INSERT..FROM SELECT whose effect on every table is compared inside a rolled
    back transaction; a ``loads(dumps(x))`` that raises is a violation.
+   A third family sends aliased() / with_polymorphic() entities of every flag combination
+   (name, flat, adapt_on_names, selectable derived from the mapped table / a foreign
+   selectable / none, aliased=True) through the serializer inside statements and alone, and
+   USES them afterwards: same SQL, same rows, same flags.
+D2. "keep using it": MetaData with string ForeignKeys whose target is not declared (forward
+   reference, removed target, schema-qualified, composite, typed / type-less referring
+   column) is pickled; afterwards the same evolution (declare the targets, add tables,
+   columns with further forward references, index / unique / check constraints) is applied
+   to the copy and to a never-pickled twin; column types, resolved FK columns, dependency
+   order, CREATE TABLE text, exceptions raised and a create_all + insert + select on SQLite
+   must agree.
 Part A also loads objects under the ``identity_token`` execution option: after the round
 trip ``state.identity_token`` must equal ``key[2]``.
 
@@ -54,7 +65,9 @@ META = {
                 "flush_streams_compared", "rows_roundtripped", "frozen_roundtripped", "metadata_roundtripped",
                 "ddl_strings_compared", "statements_roundtripped", "statement_results_compared",
                 "history_preserved_cases", "expired_preserved_cases", "loader_option_cases",
-                "schema_statements_roundtripped", "identity_token_cases"],
+                "schema_statements_roundtripped", "identity_token_cases", "aliased_statements_roundtripped",
+                "aliased_entities_roundtripped", "aliased_entities_with_differing_flags",
+                "metadata_evolved_after_roundtrip", "metadata_with_unresolved_string_fk"],
     "assumptions": ["two sessions on separate connections of one SQLite file see the same committed fixture"],
 }
 
@@ -747,6 +760,338 @@ def part_e_schemas(R, n):
                     eng.dispose()
 
 
+def aliased_entities(R, rng):
+    """aliased() / with_polymorphic() constructions over every flag combination"""
+    sa, orm, M = R.sa, R.orm, R.rig
+    U, A, ut, arch = M.User, M.Address, M.User.__table__, M.user_arch
+    v = rng.choice([0, 1, 2])
+    out = []
+    for name in (None, "ua"):
+        for flat in (False, True):
+            out.append(("plain name=%s flat=%s" % (name, flat), lambda name=name, flat=flat: orm.aliased(U, name=name, flat=flat)))
+    for adapt in (False, True):
+        out.append(("derived-subquery adapt_on_names=%s" % adapt,
+                    lambda adapt=adapt: orm.aliased(U, sa.select(ut).where(ut.c.id > v).subquery(), adapt_on_names=adapt)))
+        out.append(("table-alias adapt_on_names=%s" % adapt,
+                    lambda adapt=adapt: orm.aliased(U, ut.alias("t1"), adapt_on_names=adapt, name="viaalias")))
+    # selectables NOT derived from the mapped table: only adapt_on_names=True can map them
+    out.append(("foreign-subquery adapt_on_names=True",
+                lambda: orm.aliased(U, sa.select(arch).where(arch.c.id >= v).subquery(), adapt_on_names=True)))
+    out.append(("foreign-table-alias adapt_on_names=True name",
+                lambda: orm.aliased(U, arch.alias("ar"), adapt_on_names=True, name="fromarch")))
+    out.append(("foreign-labelled-subquery adapt_on_names=True",
+                lambda: orm.aliased(U, sa.select(arch.c.id, arch.c.name, arch.c.age, arch.c.bio, arch.c.px, arch.c.py)
+                                    .order_by(arch.c.id).limit(5).subquery("lim"), adapt_on_names=True)))
+    for flat in (False, True):
+        out.append(("aliased-subclass flat=%s" % flat, lambda flat=flat: orm.aliased(M.Eng, flat=flat, name="ef")))
+        for classes in ("*", [M.Eng], [M.Eng, M.Mgr]):
+            cname = classes if classes == "*" else "+".join(c.__name__ for c in classes)
+            out.append(("with_polymorphic %s flat=%s" % (cname, flat),
+                        lambda classes=classes, flat=flat: orm.with_polymorphic(M.Emp, classes, flat=flat)))
+    out.append(("with_polymorphic aliased=True", lambda: orm.with_polymorphic(M.Emp, "*", aliased=True)))
+    out.append(("with_polymorphic selectable",
+                lambda: orm.with_polymorphic(M.Emp, [M.Eng], M.Emp.__table__.outerjoin(M.Eng.__table__))))
+    out.append(("with_polymorphic selectable aliased",
+                lambda: orm.with_polymorphic(M.Emp, [M.Eng, M.Mgr], M.Emp.__table__.outerjoin(M.Eng.__table__).outerjoin(M.Mgr.__table__), aliased=True)))
+    return out
+
+
+def part_e_aliased(R, n):
+    """aliased entities inside statements (and on their own) through ext.serializer, then USED:
+    same SQL, same rows as before the round trip"""
+    ctx, sa, orm, M = R.ctx, R.sa, R.orm, R.rig
+    from sqlalchemy.ext import serializer
+
+    rng = ctx.rng
+    md = M.BaseM.metadata
+    for k in range(n):
+        for name, make in aliased_entities(R, rng):
+            if not ctx.budget_ok():
+                return
+            proto = PROTOS[(k + len(name)) % len(PROTOS)]
+            desc = {"part": "E-aliased", "entity": name, "proto": proto}
+
+            def vio(mech, msg, extra=None):
+                ctx.violation(mech, "%s :: %s" % (msg, desc), {"desc": desc, "detail": extra})
+
+            s, s2 = orm.Session(R.engine), orm.Session(R.engine)
+            try:
+                ent = make()
+                insp = sa.inspect(ent)
+                flags = (bool(insp._adapt_on_names), bool(insp._use_mapper_path))
+                if flags[0] != flags[1]:
+                    ctx.count("aliased_entities_with_differing_flags")
+                # category of the construction, part of the mechanism name
+                cat = ("adapt-on-names" if insp._adapt_on_names else
+                       "with-polymorphic" if name.startswith("with_polymorphic") else
+                       "selectable-alias" if "derived" in name or "table-alias" in name else "plain-alias")
+                stmts = [("select", sa.select(ent).order_by(ent.id)),
+                         ("where", sa.select(ent.id, ent.name).where(ent.name.is_not(None)).order_by(ent.id))]
+                if insp.mapper.class_ is M.User:
+                    stmts.append(("join", sa.select(ent.name, M.Address.email).join(M.Address, M.Address.user_id == ent.id).order_by(M.Address.id)))
+                    stmts.append(("relationship-join", sa.select(ent).join(ent.addresses).order_by(ent.id).distinct()))
+                if hasattr(ent, "Eng"):
+                    # attributes of a sub-entity of the polymorphic selectable
+                    stmts.append(("subclass-column", sa.select(ent.id, ent.Eng.lang).order_by(ent.id)))
+                    stmts.append(("subclass-criteria", sa.select(ent.id, ent.name).where(ent.Eng.lang == "py").order_by(ent.id)))
+                    stmts.append(("subclass-criteria-entity", sa.select(ent).where(ent.Eng.lang.is_not(None)).order_by(ent.id)))
+
+                def run_(sess, st, kind_):
+                    res = sess.execute(st)
+                    if kind_ in ("select", "relationship-join", "subclass-criteria-entity"):
+                        return [(type(o).__name__, sa.inspect(o).key[1], M.snapshot(M.graph_nodes(o))) for o in res.unique().scalars().all()]
+                    return [tuple(r) for r in res.all()]
+
+                for kind_, st in stmts:
+                    ctx.count("aliased_statements_roundtripped")
+                    try:
+                        st2 = serializer.loads(serializer.dumps(st, proto), md, lambda: s2)
+                    except Exception as e:
+                        vio("serializer-roundtrip-raises-%s" % type(e).__name__, "%s: %s" % (kind_, e))
+                        continue
+                    c1, c2 = st.compile(R.engine), st2.compile(R.engine)
+                    if str(c1) != str(c2) or c1.params != c2.params:
+                        # the property speaks of equal RESULTS; a different but equivalent FROM list
+                        # is only counted (guard), the rows decide
+                        ctx.count("aliased_statement_sql_text_differs")
+                    try:
+                        r1 = run_(s, st, kind_)
+                    except Exception as e:
+                        # the construction itself is not executable (e.g. a relationship join
+                        # from a foreign selectable): nothing to compare -- guard
+                        s.rollback()
+                        ctx.count("aliased_statement_not_executable_originally")
+                        ctx.seen("not_executable", "%s/%s/%s" % (name, kind_, type(e).__name__))
+                        continue
+                    try:
+                        r2 = run_(s2, st2, kind_)
+                    except Exception as e:
+                        s2.rollback()
+                        vio("aliased-statement-fails-after-serializer-roundtrip", "%s: %s: %s" % (kind_, type(e).__name__, str(e)[:200]))
+                        continue
+                    s.expunge_all()
+                    s2.expunge_all()
+                    if r1 != r2:
+                        vio("%s-statement-results-differ-after-serializer-roundtrip" % cat,
+                            "%s: %r vs %r :: %s  ->  %s" % (kind_, r1[:3], r2[:3], str(c1).replace("\n", " ")[:200], str(c2).replace("\n", " ")[:200]))
+                # the entity itself, then used in a new statement
+                ent2 = serializer.loads(serializer.dumps(ent, proto), md, lambda: s2)
+                insp2 = sa.inspect(ent2)
+                flags2 = (bool(insp2._adapt_on_names), bool(insp2._use_mapper_path))
+                st, st2 = sa.select(ent).order_by(ent.id), sa.select(ent2).order_by(ent2.id)
+                try:
+                    r1 = run_(s, st, "select")
+                except Exception:
+                    s.rollback()
+                    ctx.count("aliased_statement_not_executable_originally")
+                    continue
+                try:
+                    r2 = run_(s2, st2, "select")
+                except Exception as e:
+                    s2.rollback()
+                    vio("aliased-statement-fails-after-serializer-roundtrip", "entity: %s: %s" % (type(e).__name__, str(e)[:200]))
+                    continue
+                ctx.count("aliased_entities_roundtripped")
+                if r1 != r2 or flags != flags2 or insp2.name != insp.name:
+                    vio("%s-entity-behaves-differently-after-serializer-roundtrip" % cat,
+                        "flags %s -> %s, name %s -> %s, rows %r vs %r" % (flags, flags2, insp.name, insp2.name, r1[:2], r2[:2]))
+                ctx.case(desc, nontrivial=True)
+            finally:
+                s.rollback()
+                s2.rollback()
+                s.close()
+                s2.close()
+
+
+# --------------------------------------------------------------------------
+# part D2: keep USING a MetaData after the round trip (schema evolution)
+# --------------------------------------------------------------------------
+def evolving_spec(rng, k):
+    """pure data: a MetaData with forward references / removed targets, and what is declared
+    AFTER the round trip"""
+    types = ["Integer", "BigInteger", "String20", "Numeric"]
+    spec = {"k": k, "children": [], "post_tables": [], "post_columns": [], "post_extras": []}
+    for i in range(rng.randint(1, 3)):
+        spec["children"].append({
+            "name": "child%d" % i,
+            "typed": rng.random() < 0.4,                  # referring column declared with / without a type
+            "target": "parent%d" % rng.randint(0, 1),
+            "target_schema": rng.choice([None, None, "alt"]),
+            "mode": rng.choice(["forward", "forward", "removed", "present"]),
+            "composite": rng.random() < 0.3,
+            "fk_name": rng.choice([None, "fk_named_%d" % i]),
+        })
+    spec["parent_types"] = [rng.choice(types), rng.choice(types)]
+    spec["post_tables"] = [{"name": "late%d" % i, "refs": rng.choice(["child0", "parent0", "later_still"])}
+                           for i in range(rng.randint(0, 2))]
+    spec["post_columns"] = [{"table": "child0", "name": "extra%d" % i, "fk": rng.choice([None, "parent1.id", "unborn.id"])}
+                            for i in range(rng.randint(0, 2))]
+    spec["post_extras"] = rng.sample(["index", "unique", "check"], rng.randint(0, 3))
+    return spec
+
+
+def _etype(sa, name):
+    return {"Integer": sa.Integer, "BigInteger": sa.BigInteger, "String20": lambda: sa.String(20),
+            "Numeric": lambda: sa.Numeric(12, 2)}[name]()
+
+
+def _parent(sa, md, name, schema, tname):
+    return sa.Table(name, md, sa.Column("id", _etype(sa, tname), primary_key=True),
+                    sa.Column("id2", sa.String(10), primary_key=True), sa.Column("label", sa.String(20)),
+                    schema=schema, extend_existing=True)
+
+
+def build_evolving(sa, spec):
+    md = sa.MetaData()
+    for ch in spec["children"]:
+        tkey = ("%s." % ch["target_schema"] if ch["target_schema"] else "") + ch["target"]
+        pidx = int(ch["target"][-1])
+        if ch["mode"] in ("present", "removed") and tkey not in md.tables:
+            _parent(sa, md, ch["target"], ch["target_schema"], spec["parent_types"][pidx])
+        cols = [sa.Column("id", sa.Integer, primary_key=True), sa.Column("v", sa.String(10))]
+        extra = []
+        if ch["composite"]:
+            cols += [sa.Column("pa"), sa.Column("pb")] if not ch["typed"] else [
+                sa.Column("pa", _etype(sa, spec["parent_types"][pidx])), sa.Column("pb", sa.String(10))]
+            extra.append(sa.ForeignKeyConstraint(["pa", "pb"], [tkey + ".id", tkey + ".id2"], name=ch["fk_name"]))
+        else:
+            fk = sa.ForeignKey(tkey + ".id", name=ch["fk_name"])
+            cols.append(sa.Column("parent_id", _etype(sa, spec["parent_types"][pidx]), fk) if ch["typed"]
+                        else sa.Column("parent_id", fk))
+        sa.Table(ch["name"], md, *cols, *extra)
+    for ch in spec["children"]:
+        tkey = ("%s." % ch["target_schema"] if ch["target_schema"] else "") + ch["target"]
+        if ch["mode"] == "removed" and tkey in md.tables and not any(
+                c2["mode"] == "present" and c2["target"] == ch["target"] and c2["target_schema"] == ch["target_schema"]
+                for c2 in spec["children"]):
+            md.remove(md.tables[tkey])
+    return md
+
+
+def evolve(sa, md, spec):
+    """what the application does with the MetaData afterwards: declare the missing targets,
+    add tables / columns / constraints; returns the exceptions raised on the way (type names)"""
+    errors = []
+
+    def step(fn):
+        try:
+            fn()
+        except Exception as e:
+            errors.append(type(e).__name__)
+
+    for ch in spec["children"]:
+        tkey = ("%s." % ch["target_schema"] if ch["target_schema"] else "") + ch["target"]
+        if tkey not in md.tables:
+            step(lambda ch=ch: _parent(sa, md, ch["target"], ch["target_schema"], spec["parent_types"][int(ch["target"][-1])]))
+    for pt in spec["post_tables"]:
+        step(lambda pt=pt: sa.Table(pt["name"], md, sa.Column("id", sa.Integer, primary_key=True),
+                                    sa.Column("ref", sa.ForeignKey(pt["refs"] + ".id"))))
+    for pc in spec["post_columns"]:
+        if pc["table"] in md.tables:
+            step(lambda pc=pc: md.tables[pc["table"]].append_column(
+                sa.Column(pc["name"], sa.ForeignKey(pc["fk"])) if pc["fk"] else sa.Column(pc["name"], sa.Integer)))
+    t = md.tables.get("child0")
+    if t is not None:
+        if "index" in spec["post_extras"]:
+            step(lambda: sa.Index("ix_child0_v", t.c.v))
+        if "unique" in spec["post_extras"]:
+            step(lambda: t.append_constraint(sa.UniqueConstraint("v", "id", name="uq_child0")))
+        if "check" in spec["post_extras"]:
+            step(lambda: t.append_constraint(sa.CheckConstraint("id > 0", name="ck_child0")))
+    if any(pt["refs"] == "later_still" for pt in spec["post_tables"]):
+        step(lambda: sa.Table("later_still", md, sa.Column("id", sa.BigInteger, primary_key=True)))
+    if any(pc["fk"] == "unborn.id" for pc in spec["post_columns"]):
+        step(lambda: sa.Table("unborn", md, sa.Column("id", sa.String(20), primary_key=True)))
+    return errors
+
+
+def evolved_facts(sa, md, functional_too=True):
+    """tolerant facts: every derived artefact, or the name of the exception producing it raises"""
+    from sqlalchemy.dialects import sqlite
+    from sqlalchemy.schema import CreateIndex, CreateTable
+
+    def safe(fn):
+        try:
+            return fn()
+        except Exception as e:
+            return "raises:" + type(e).__name__
+
+    out = {"order": safe(lambda: [t.fullname for t in md.sorted_tables]), "tables": {}}
+    for key in sorted(md.tables):
+        t = md.tables[key]
+        out["tables"][key] = {
+            "cols": [(c.name, repr(c.type), c.nullable, c.primary_key) for c in t.c],
+            "fks": sorted((fk.parent.name, safe(lambda fk=fk: fk.target_fullname), safe(lambda fk=fk: str(fk.column)),
+                           safe(lambda fk=fk: repr(fk.column.type)), str(fk.name)) for fk in t.foreign_keys),
+            "constraints": sorted((type(c).__name__, str(c.name), tuple(col.name for col in getattr(c, "columns", [])),
+                                   safe(lambda c=c: getattr(c, "referred_table", None) is not None and c.referred_table.fullname))
+                                  for c in t.constraints),
+            "indexes": sorted((str(ix.name), tuple(c.name for c in ix.columns)) for ix in t.indexes),
+            "ddl": safe(lambda: [str(CreateTable(t).compile(dialect=sqlite.dialect()))] + sorted(
+                str(CreateIndex(ix).compile(dialect=sqlite.dialect())) for ix in t.indexes)),
+        }
+    # functional: create everything on SQLite (schema alt ATTACHed), insert a parent/child pair, read back
+    def functional():
+        e = sa.create_engine("sqlite://")
+        try:
+            with e.begin() as c:
+                c.exec_driver_sql("ATTACH DATABASE ':memory:' AS alt")
+                md.create_all(c)
+                res = []
+                for t in md.sorted_tables:
+                    vals = {}
+                    for col in t.c:
+                        vals[col.name] = "1" if isinstance(col.type, sa.String) else 1
+                    c.execute(t.insert().values(**vals))
+                    res.append((t.fullname, [tuple(map(str, r)) for r in c.execute(sa.select(t)).all()]))
+                return res
+        finally:
+            e.dispose()
+
+    if functional_too:
+        out["functional"] = safe(functional)
+    return out
+
+
+def part_d_evolve(R, n):
+    ctx, sa = R.ctx, R.sa
+    rng = ctx.rng
+    for k in range(n):
+        if not ctx.budget_ok():
+            return
+        spec = evolving_spec(rng, k)
+        for proto in PROTOS:
+            twin = build_evolving(sa, spec)         # never pickled
+            copy_ = roundtrip(build_evolving(sa, spec), proto)
+            ctx.count("metadata_evolved_after_roundtrip")
+            if any(ch["mode"] in ("forward", "removed") for ch in spec["children"]):
+                ctx.count("metadata_with_unresolved_string_fk")
+            d = {"part": "D-evolve", "spec": spec, "proto": proto}
+            before_t, before_c = evolved_facts(sa, twin, False), evolved_facts(sa, copy_, False)
+            err_t, err_c = evolve(sa, twin, spec), evolve(sa, copy_, spec)
+            after_t, after_c = evolved_facts(sa, twin), evolved_facts(sa, copy_)
+            for stage, ft, fc in (("before-evolution", before_t, before_c), ("after-evolution", after_t, after_c)):
+                if ft != fc:
+                    if ft["order"] != fc["order"]:
+                        which = "dependency-order"
+                    elif ft.get("functional") != fc.get("functional") and ft["tables"] == fc["tables"]:
+                        which = "create-insert-select"
+                    else:
+                        tk = next(t for t in ft["tables"] if fc["tables"].get(t) != ft["tables"][t])
+                        which = next(k2 for k2 in ft["tables"][tk] if fc["tables"].get(tk, {}).get(k2) != ft["tables"][tk][k2])
+                    ctx.violation("unpickled-metadata-%s-differs-from-twin-%s" % (which, stage),
+                                  "proto=%s spec=%s" % (proto, spec),
+                                  {"desc": d, "twin": ft if which in ("dependency-order", "create-insert-select") else ft["tables"].get(tk),
+                                   "copy": fc if which in ("dependency-order", "create-insert-select") else fc["tables"].get(tk)})
+                    break
+            else:
+                if err_t != err_c:
+                    ctx.violation("unpickled-metadata-evolution-raises-differently", "twin %s copy %s" % (err_t, err_c), d)
+            ctx.case({"part": "D-evolve", "spec": spec}, nontrivial=True)
+        if k == 0:
+            ctx.sample({"part": "D-evolve", "spec": spec})
+
+
 class _Slice:
     """ctx proxy: ``budget_ok()`` is True for the first ``min_calls`` calls whatever the
     clock says (every part must observe something even on an overloaded machine), then
@@ -781,6 +1126,10 @@ def run(ctx):
         part_e(R, ctx.pick({"quick": 5, "thorough": 120}))
         R.ctx = _Slice(ctx, 0.6, 64)
         part_e_schemas(R, ctx.pick({"quick": 1, "thorough": 12}))
+        R.ctx = _Slice(ctx, 0.7, 24)
+        part_e_aliased(R, ctx.pick({"quick": 1, "thorough": 10}))
+        R.ctx = _Slice(ctx, 0.8, 6)
+        part_d_evolve(R, ctx.pick({"quick": 6, "thorough": 200}))
         R.ctx = _Slice(ctx, 1.0, 40)
         part_a(R, ctx.pick({"quick": 280, "thorough": 3000}))
     finally:
